@@ -137,6 +137,12 @@ class Interp:
         self.solver.push()
         if extra is not None: self.solver.add(extra)
         r = self.solver.check()
+        if r == z3.unknown:
+            # one retry on a fresh solver with six times the time (a loaded machine turns honest queries into time-outs)
+            try:
+                s2 = z3.Solver(); s2.set('timeout', 6 * int(self.params.get('query_timeout_ms', 10000))); s2.set('random_seed', 11)
+                s2.add(self.solver.assertions()); r = s2.check(); self.tot['retried_unknown'] = self.tot.get('retried_unknown', 0) + 1
+            except Exception: r = z3.unknown
         self.solver.pop()
         self.tot['solver_s'] += time.time() - t; self.tot['queries'] += 1
         return r
